@@ -78,9 +78,14 @@ func UserCodeCase(c *Case) M {
 			ucWorld = w
 		})
 		store := modelstore.New(opdrv.BuildRegs(ucWorld), opdrv.SigningKeyFor("ES256"))
+		formURI := opdrv.Issuer + "/device/form"
 		conf := &op.Config{CryptoKey: opdrv.CryptoKey, DeviceAuthorization: op.DeviceAuthorizationConfig{
 			Lifetime: time.Duration(I(cs, "lifetime")) * time.Second, PollInterval: time.Duration(I(cs, "poll")) * time.Second, UserFormPath: "/device/form",
 			UserCode: op.UserCodeConfig{CharSet: string(alphabet), CharAmount: amount, DashInterval: interval}}}
+		if S(cs, "form") == "url" {
+			formURI = "https://login.example.test/device/enter"
+			conf.DeviceAuthorization.UserFormPath, conf.DeviceAuthorization.UserFormURL = "", formURI
+		}
 		prov, err := op.NewProvider(conf, modelstore.WithCaps(store, true, true, true), op.StaticIssuer(opdrv.Issuer))
 		if err != nil {
 			panic("harness: " + err.Error())
@@ -118,11 +123,11 @@ func UserCodeCase(c *Case) M {
 			} else if i == 0 || len(raw)*8 < o["deviceBits"].(int) {
 				o["deviceBits"] = len(raw) * 8
 			}
-			if resp.URI != opdrv.Issuer+"/device/form" {
+			if resp.URI != formURI {
 				o["uriOK"] = false
 			}
 			u, err := url.Parse(resp.Complete)
-			if err != nil || !strings.HasPrefix(resp.Complete, opdrv.Issuer+"/device/form?") || u.Query().Get("user_code") != resp.UserCode {
+			if err != nil || !strings.HasPrefix(resp.Complete, formURI+"?") || u.Query().Get("user_code") != resp.UserCode {
 				o["completeOK"] = false
 			}
 			o["expires"], o["interval"] = resp.ExpiresIn, resp.Interval
